@@ -14,6 +14,7 @@ from cocoasm.exceptions import ParseError, TranslationError, OperandTypeError
 from cocoasm.instruction import INSTRUCTIONS, CodePackage
 from cocoasm.operands import Operand, BadInstructionOperand
 from cocoasm.values import NumericValue
+from cocoasm import _verif
 
 # C O N S T A N T S ###########################################################
 
@@ -255,6 +256,9 @@ class Statement(object):
                 self.fixed_size = True
                 raw_post_byte |= self.code_pkg.post_byte_choices[1]
                 self.code_pkg.post_byte = NumericValue(raw_post_byte)
+
+        _verif.emit("SizeDecide", i=this_index, tgt=rel_index, min=min_size, max=max_size, fwd=positive_range,
+                    forced=force_16_bit, fixed=self.fixed_size, size=self.code_pkg.size)
 
     def fix_addresses(self, statements, this_index):
         """
